@@ -555,11 +555,14 @@ def run_case(runner, tmp, cmd, start, target):
         except Exception as e:
             res["offline_error"] = "%s: %s" % (type(e).__name__, str(e)[:300])
     res["ver_offline"] = spy.ops
-    if res["online_error"] or res["offline_error"]:
+    if res["offline_error"]:
         return res
+    # (when the online run raised, the script is still executed: "both fail" is not a difference)
     n, err = exec_script(b, res["script"])
     res["n_statements"] = n
     res["exec_error"] = err
+    if res["online_error"]:
+        return res
     res["A"] = dump_db(a)
     res["B"] = dump_db(b)
     return res
